@@ -227,6 +227,61 @@ def check_resize_area(case):
                    _labels(spec, _resize_class(case), f"api-{case['api']}"))
 
 
+def gen_resize_reuse(tier):
+    @st.composite
+    def strat(draw):
+        target = [draw(st.integers(1, 6)), draw(st.integers(1, 6))]
+        n = draw(st.integers(2, 4))
+        imgs = []
+        for _ in range(n):
+            spec = draw(_img_specs())
+            # pure down-sampling or integer up-sampling w.r.t. the fixed target
+            if draw(st.booleans()):
+                spec["shape"] = [target[0] * draw(st.integers(1, 3)), target[1] * draw(st.integers(1, 3))]
+            else:
+                spec["shape"] = [draw(st.integers(target[0], 12)), draw(st.integers(target[1], 12))]
+            spec["dimensions"] = [float(spec["shape"][0]) * 0.5, float(spec["shape"][1]) * 0.25]
+            imgs.append(spec)
+        return {"target": target, "imgs": imgs, "conservative": draw(st.booleans()),
+                "api": draw(st.sampled_from(["shape", "ref"]))}
+
+    return strat()
+
+
+def check_resize_reuse(case):
+    """One Resize object applied to several images of different shapes: every result conserves its
+    own input and equals what a fresh Resize object gives."""
+    def make():
+        cons = {"resize conservative": True} if case["conservative"] else {}
+        if case["api"] == "shape":
+            return darsia.Resize(shape=tuple(case["target"]), interpolation="inter_area", **cons)
+        ref = darsia.Image(np.zeros(tuple(case["target"])), space_dim=2, dimensions=[1.0, 1.0])
+        return darsia.Resize(ref_image=ref, interpolation="inter_area", **cons)
+
+    shared = make()
+    t = {"api": case["api"], "conservative": case["conservative"]}
+    for k, spec in enumerate(case["imgs"]):
+        img = gens.build_image(spec)
+        before = img.img.copy()
+        out = shared(img)
+        fresh = make()(gens.build_image(spec))
+        if out.img.shape != fresh.img.shape or not np.array_equal(out.img, fresh.img, equal_nan=True):
+            raise Violation("resize-reuse:history", f"call {k} of a re-used Resize object on shape "
+                            f"{spec['shape']} (earlier shapes {[s['shape'] for s in case['imgs'][:k]]}) differs "
+                            f"from a fresh Resize object", t)
+        if case["conservative"]:
+            s0 = before.astype(float).sum(axis=(0, 1))
+            m0 = np.abs(before.astype(float)).sum(axis=(0, 1))
+            ok, msg = _close(out.img.astype(float).sum(axis=(0, 1)), s0, m0, TOL_CV)
+            if not ok:
+                raise Violation("resize-reuse:sum", f"call {k} ({spec['shape']} -> {case['target']}): np.sum {msg}", t)
+        if not np.array_equal(img.img, before):
+            raise Violation("resize:mutates", "input array modified", t)
+    shapes = {tuple(s["shape"]) for s in case["imgs"]}
+    return Outcome(len(shapes) >= 2, case, ("conservative" if case["conservative"] else "plain",
+                                             f"n{len(case['imgs'])}"), evals=len(case["imgs"]))
+
+
 # ---------------------------------------------------------------------------------------
 # 3 + 4. uniform refinement / coarsening
 # ---------------------------------------------------------------------------------------
@@ -714,6 +769,7 @@ PROP = Prop(
         Sub("resize_area_integral", check_resize_area,
             gen=gen_resize(OBJ_APIS + FUN_APIS, ["image"]),
             n={"quick": 2400, "thorough": 24000}, shards={"quick": 2, "thorough": 16}),
+        Sub("resize_object_reuse", check_resize_reuse, gen=gen_resize_reuse, n=_N, shards=_SH),
         Sub("refine_integral", check_refine, gen=gen_refine, n=_N, shards=_SH),
         Sub("coarsen_integral", check_coarsen, gen=gen_coarsen,
             n={"quick": 2400, "thorough": 16000}, shards={"quick": 2, "thorough": 8}),
